@@ -75,6 +75,8 @@ pub struct RLog {
     pub fired: Option<RKind>,
     pub reads_after_fault: u64,
     pub natural_eof: u64,
+    /// how often the device answered Ok(0) (end of stream) to a non-empty read
+    pub eof_answers: u64,
     pub interrupted: u64,
     pub short_reads: u64,
     pub max_chain: u32,
@@ -263,6 +265,7 @@ impl SimReader {
                             log.reads_after_fault += 1;
                         }
                         log.fired = Some(RKind::Eof);
+                        log.eof_answers += 1;
                         log.push_ev((b'0', pos as u32, buf.len() as u32));
                         return IoOut::Ok(0);
                     }
@@ -274,6 +277,7 @@ impl SimReader {
         }
         if pos >= self.data.len() {
             log.natural_eof += 1;
+            log.eof_answers += 1;
             log.push_ev((b'0', pos as u32, buf.len() as u32));
             return IoOut::Ok(0);
         }
